@@ -153,13 +153,15 @@ func VerifH_C02_L2_idempotent() {
 	}
 	var names []string
 	creates := 0
+	failedNow := 0
 	api.Decide = func(c *fakes.APICall) error {
 		names = append(names, c.Name)
 		if has(c.Name) {
 			return fakes.ErrorOfKind(3, c.Name) // AlreadyExists: names are unique per namespace
 		}
 		if vz.Bool("create.fails") {
-			return fakes.ErrorOfKind(vz.Choice("create.errKind", 3), c.Name)
+			failedNow++
+			return fakes.ErrorOfKind([]int{0, 1, 2, 8}[vz.Choice("create.errKind", 4)], c.Name)
 		}
 		return nil
 	}
@@ -176,9 +178,20 @@ func VerifH_C02_L2_idempotent() {
 	r := NewReconciler(ctx, NewExecutionControl("verif", &fakes.ExecClient{A: api}, rec), rec, store, nil)
 	key := JoinJobConfigKeyName(name, t)
 	err1 := r.SyncOne(context.Background(), "ns", key, 0)
+	failed1 := failedNow
+	failedNow = 0
 	err2 := r.SyncOne(context.Background(), "ns", key, 0)
-	_ = err1
-	_ = err2
+	failed2 := failedNow
+	// a create that failed for a reason that may pass (conflict, server error, timeout,
+	// quota / forbidden-for-now) is reported, so that the work item is retried: the cron
+	// worker never offers a past schedule time again, a swallowed failure loses the Job for good
+	if failed1 > 0 {
+		vz.Assert(err1 != nil, "C20/cron-create-failure-is-reported-for-retry")
+		vz.Cover("create-failed")
+	}
+	if failed2 > 0 {
+		vz.Assert(err2 != nil, "C20/cron-create-failure-is-reported-for-retry")
+	}
 	vz.Assert(creates <= 1, "C02/L2/at-most-one-job-per-schedule-time")
 	want := jobconfig.GenerateName(name, t)
 	for _, n := range names {
